@@ -822,7 +822,17 @@ impl<'a, 'b> FnCtx<'a, 'b> {
             self.emit(I::If(BlockType::Empty));
             self.frames.push(Frame { label_tys: vec![] });
             self.stmts(rng, d);
-            if rng.chance(1, 2) {
+            if rng.chance(1, 4) {
+                // both arms end in an unconditional transfer, at least one of them by leaving the
+                // `if` itself: what follows the construct is reachable although neither arm falls
+                // through
+                let both_leave = rng.chance(1, 2);
+                let then_leaves = both_leave || rng.chance(1, 2);
+                self.emit(if then_leaves { I::Br(0) } else { I::Unreachable });
+                self.emit(I::Else);
+                self.stmts(rng, d);
+                self.emit(if both_leave || !then_leaves { I::Br(0) } else { I::Unreachable });
+            } else if rng.chance(1, 2) {
                 self.emit(I::Else);
                 self.stmts(rng, d);
             }
@@ -1644,13 +1654,18 @@ pub fn gen_module(rng: &mut Rng, cfg: &GenCfg) -> Generated {
     }
     if cfg.names && rng.chance(2, 3) {
         let mut names = NameSection::new();
-        if rng.chance(1, 2) || cfg.names_simple || cfg.names_module {
+        // one name section in five names entities of a single kind only (a partial name section, as
+        // a tool that knows about one kind of entity writes it): 0 module, 1 functions, 2 locals,
+        // 3 types, 4 tables, 5 memories, 6 globals, 7 elements, 8 data
+        let only: Option<u64> = if !cfg.names_simple && !cfg.names_module && rng.chance(1, 5) { Some(rng.below(9)) } else { None };
+        let want = |k: u64| only.map(|o| o == k).unwrap_or(true);
+        if want(0) && (rng.chance(1, 2) || cfg.names_simple || cfg.names_module || only.is_some()) {
             names.module(&format!("mod_{}", rand_name(rng)));
         }
         let mut fm = NameMap::new();
         let mut any = false;
         for f in 0..funcs.len() as u32 {
-            if rng.chance(1, 2) {
+            if want(1) && (rng.chance(1, 2) || only.is_some()) {
                 fm.append(f, &format!("fn{}_{}", f, rand_name(rng)));
                 any = true;
             }
@@ -1683,7 +1698,7 @@ pub fn gen_module(rng: &mut Rng, cfg: &GenCfg) -> Generated {
                 nm.append(total as u32 + rng.below(3) as u32, &format!("stale_{}", rand_name(rng)));
                 anyn = true;
             }
-            if anyn && rng.chance(2, 3) {
+            if anyn && want(2) && (rng.chance(2, 3) || only.is_some()) {
                 im.append((n_imported_funcs + k) as u32, &nm);
                 anyl = true;
             }
@@ -1692,11 +1707,11 @@ pub fn gen_module(rng: &mut Rng, cfg: &GenCfg) -> Generated {
             names.locals(&im);
         }
         macro_rules! simple {
-            ($n:expr, $m:ident) => {{
+            ($n:expr, $m:ident, $k:expr) => {{
                 let mut nm = NameMap::new();
                 let mut any = false;
                 for i in 0..$n as u32 {
-                    if rng.chance(1, 2) {
+                    if want($k) && (rng.chance(1, 2) || only.is_some()) {
                         nm.append(i, &format!("{}{}_{}", stringify!($m), i, rand_name(rng)));
                         any = true;
                     }
@@ -1706,12 +1721,12 @@ pub fn gen_module(rng: &mut Rng, cfg: &GenCfg) -> Generated {
                 }
             }};
         }
-        simple!(types.len(), types);
-        simple!(ctx.tables.len(), tables);
-        simple!(ctx.mems.len(), memories);
-        simple!(ctx.globals.len(), globals);
-        simple!(n_elem, elements);
-        simple!(n_data, data);
+        simple!(types.len(), types, 3);
+        simple!(ctx.tables.len(), tables, 4);
+        simple!(ctx.mems.len(), memories, 5);
+        simple!(ctx.globals.len(), globals, 6);
+        simple!(n_elem, elements, 7);
+        simple!(n_data, data, 8);
         module.section(&names);
         custom(&mut module, rng);
         }
